@@ -1,6 +1,7 @@
 (* C02 -- random-access AES-CBC reads equal whole-stream decryption; the wrapper never writes. *)
 From Pyctr Require Import Base.Prelude Base.ListExt Base.PyInt Base.PySlice Env.PyFile Env.FileIface
-  Spec.StreamCipher Env.Cipher Model.Window Model.CbcIO Proofs.WindowProofs Proofs.WrapInstances Proofs.CbcProofs.
+  Spec.StreamCipher Env.Cipher Model.Window Model.CbcIO Proofs.WindowProofs Proofs.WrapInstances Proofs.CbcProofs
+  Proofs.CbcChunkProofs.
 From Dyn Require Import Gen_engine.
 
 Section C02.
@@ -33,6 +34,39 @@ Theorem C02_cbc_dec_blocks : forall ct i m,
   slice (cbc_dec D key iv ct) (16 * i) (16 * m) = cbc_blocks D key iv ct i (Z.to_nat m).
 Proof. exact (slice_cbc_dec D D_len key iv Hiv). Qed.
 
+(* composition.  Consecutive reads in ANY chunking (sizes negative, zero, sub-block, over-long, past the end) glue back to ONE
+   slice of the whole-stream decryption starting at the initial position; the position ends behind the bytes returned *)
+Theorem C02_cbc_chunks_glue : forall ns s, pf_ok s -> len (fdata s) mod 16 = 0 ->
+  let '(rs, s') := cbc_run D pyfile_ops key iv s (map BRead ns) in
+  exists t, glue rs = Some t /\ t = slice (cbc_dec D key iv (fdata s)) (fpos s) (len t) /\
+    fpos s' = fpos s + len t /\ fdata s' = fdata s /\ pf_ok s'.
+Proof. intros ns s Hs. exact (cbc_chunks_glue D D_len pyfile_ops pf_ok fdata fpos pyfile_lawful key iv Hiv ns s Hs Hs). Qed.
+
+(* ... and over a window *)
+Theorem C02_cbc_chunks_glue_window : forall off sz, 0 <= off -> 0 <= sz -> forall ns s,
+  win_inv off s -> 0 <= wseek s -> len (win_content off sz s) mod 16 = 0 ->
+  let '(rs, s') := cbc_run D (window_ops off sz) key iv s (map BRead ns) in
+  exists t, glue rs = Some t /\ t = slice (cbc_dec D key iv (win_content off sz s)) (wseek s) (len t) /\
+    wseek s' = wseek s + len t /\ win_content off sz s' = win_content off sz s /\ win_inv off s'.
+Proof.
+  intros off sz Ho Hs.
+  exact (cbc_chunks_glue D D_len (window_ops off sz) (win_inv off) (win_content off sz) wseek
+           (window_lawful off sz Ho Hs) key iv Hiv).
+Qed.
+
+(* from position 0, any chunks and then read(-1): exactly the whole-stream decryption *)
+Theorem C02_cbc_chunks_then_rest_is_whole : forall ns s, pf_ok s -> fpos s = 0 -> len (fdata s) mod 16 = 0 ->
+  exists t, glue (fst (cbc_run D pyfile_ops key iv s (map BRead (ns ++ [-1])))) = Some t /\ t = cbc_dec D key iv (fdata s).
+Proof. exact (cbc_chunks_then_rest_is_whole D D_len pyfile_ops pf_ok fdata fpos pyfile_lawful key iv Hiv). Qed.
+
+(* history independence: the wrapper carries nothing from one call to the next but the position.  After ANY history, seek(p) then
+   read(n) returns the slice at p -- what the same two calls return on a freshly made wrapper *)
+Theorem C02_cbc_read_history_independent : forall ops p n s, pf_ok s -> len (fdata s) mod 16 = 0 -> 0 <= p ->
+  forall q s2, f_seek pyfile_ops (snd (cbc_run D pyfile_ops key iv s ops)) p 0 = Ok (q, s2) ->
+  exists out s3, cbc_step D pyfile_ops key iv s2 (BRead n) = (BBytes out, s3) /\
+    out = slice (cbc_dec D key iv (fdata s)) q (read_count (len (fdata s)) q n).
+Proof. exact (cbc_read_history_independent D D_len pyfile_ops pf_ok fdata fpos pyfile_lawful key iv Hiv). Qed.
+
 End C02.
 
 (* the model has no write operation at all: the only calls it makes on the underlying file are tell/seek/read
@@ -45,6 +79,10 @@ Print Assumptions C02_cbc_plain.
 Print Assumptions C02_cbc_window.
 Print Assumptions C02_cbc_dec_blocks.
 Print Assumptions C02_gen_before.
+Print Assumptions C02_cbc_chunks_glue.
+Print Assumptions C02_cbc_chunks_glue_window.
+Print Assumptions C02_cbc_chunks_then_rest_is_whole.
+Print Assumptions C02_cbc_read_history_independent.
 
 (* the hypothesis on D is satisfiable, and a concrete unaligned history *)
 Definition toyD (k b : list Z) : list Z := map (fun x => Z.lxor (x + 1) (hd 0 k) mod 256) (rev b).
@@ -55,4 +93,11 @@ Example C02_example :
   fst (cbc_run toyD pyfile_ops [5] (repeat 9 16) (mkFile ct 0) [BSeek 21 0; BRead 13; BRead (-1); BSeek 60 0; BRead 1; BTell])
   = [BInt 21; BBytes (slice (cbc_dec toyD [5] (repeat 9 16) ct) 21 13); BBytes (slice (cbc_dec toyD [5] (repeat 9 16) ct) 34 14);
      BInt 60; BBytes []; BInt 60].
+Proof. vm_compute. reflexivity. Qed.
+
+(* chunked reading on the concrete history: 7 + 0 + 20 + over-long + past-the-end *)
+Example C02_chunks_example :
+  let ct := map Z.of_nat (seq 0 48) in
+  glue (fst (cbc_run toyD pyfile_ops [5] (repeat 9 16) (mkFile ct 0) (map BRead [7; 0; 20; 100; 3; -1])))
+  = Some (cbc_dec toyD [5] (repeat 9 16) ct).
 Proof. vm_compute. reflexivity. Qed.
